@@ -18,7 +18,7 @@ from vt.harness import c01_gen as G
 LEVEL = "proof"
 NSHARDS = 16
 
-SEEDS = ["&#99999999999;", "<nowiki>&#99999999999;</nowiki>", "&#xFFFFFFFFF;", "&#-1;", "&#x110000;", "&#0;", "&#xD800;", "[[&#xD800;]]",
+SEEDS = ["{{#switch:|}}", "&#99999999999;", "<nowiki>&#99999999999;</nowiki>", "&#xFFFFFFFFF;", "&#-1;", "&#x110000;", "&#0;", "&#xD800;", "[[&#xD800;]]",
          "<pre>&#99999999999;</pre>", "<inputbox/>", "<inputbox>x</inputbox>", "{{rec}}", "<ref>{{#ifexist:X|y|n}}</ref>",
          '<pages from="a" to="b" />', '<pages from=1 to=300000 index=I />', "<imagemap>\nrect 0 0 [[A]]\n</imagemap>",
          "<timeline>x</timeline>", "<gallery>\nx\n</gallery>", "{|\n|", "'''''", "''" * 60, "[[" * 40, "{|\n" * 40, "<div>" * 40,
@@ -105,7 +105,7 @@ def minimise(src, case, fp):
     return case["raw"], case["db"]
 
 
-def minimise_crash(src, case, fp):
+def minimise_crash(src, case, fp, limit=40):
     raw, db = case["raw"], case["db"]
     probes = [0]
 
@@ -119,11 +119,11 @@ def minimise_crash(src, case, fp):
             if keeps(raw, d2):
                 db = d2
     n = 2
-    while len(raw) >= 2 and probes[0] < 120:
+    while len(raw) >= 2 and probes[0] < limit:
         chunk = max(1, len(raw) // n)
         red = False
         i = 0
-        while i < len(raw) and probes[0] < 120:
+        while i < len(raw) and probes[0] < limit:
             cand = raw[:i] + raw[i + chunk:]
             if cand and keeps(cand, db):
                 raw, n, red = cand, max(n - 1, 2), True
